@@ -1,7 +1,7 @@
 (* C14 - Beats are exact fractions that snap to the 1/48 grid only from inexact input.
    Statements only; proofs are in Proofs/C14.v. *)
 From Coq Require Import ZArith.
-From SV Require Import Str Beat Proofs.C14 Proofs.C14Lex Generated.Tables.
+From SV Require Import Str Beat Proofs.C14 Proofs.C14Lex Proofs.C14Events Generated.Tables.
 Open Scope Z_scope.
 
 (* the model's tick subdivision is the one the code defines now *)
@@ -40,6 +40,17 @@ Print Assumptions C14_str_roundtrip.
 Theorem C14_text_roundtrip : forall t : Z, beat_from_str (show3 t) = Got t.
 Proof. exact show3_reads_back. Qed.
 Print Assumptions C14_text_roundtrip.
+
+(* a timing value (an exact decimal, any number of places) written in plain notation reads back as itself ... *)
+Theorem C14_decimal_roundtrip : forall d, parse_dec (show_dec d) = Got d.
+Proof. exact parse_dec_show. Qed.
+Print Assumptions C14_decimal_roundtrip.
+
+(* ... and a list of beat=value timing events (tick-aligned beats, exact decimal values, any length, any order)
+   written out by BeatValues.__str__ and parsed back by BeatValues.from_str is unchanged *)
+Theorem C14_events_roundtrip : forall es : list (Z * dec), parse_events (Some (show_events es)) = Got es.
+Proof. exact parse_events_show. Qed.
+Print Assumptions C14_events_roundtrip.
 
 Theorem C14_margin : forall t : Z,
   let r := (1000 * t) mod 48 in
